@@ -465,6 +465,58 @@ def f_invariant(f):
     a, b = md.render(PROBE), fresh.render(PROBE)
     if a != b:
         return "probe render differs from a fresh instance configured to the reported active rules"
+    return t_invariant(md)
+
+
+# named terminator chains, observed by behaviour: a never-parsing rule that is a member of chain c only and answers
+# "yes" in validation mode on lines carrying its own sentinel ends the look-ahead of construct c at such a line - and
+# changes nothing in the look-ahead of any other construct
+T_CHAINS = ["paragraph", "reference", "blockquote", "list"]
+T_DOCS = {"paragraph": "p1\n{S}x\n", "reference": "[r]: /u\n\"t\n{S}x\nc\"\n", "blockquote": "> q\n{S}x\n",
+          "list": "- i\n- {S}x\n"}
+
+
+def _t_outcome(md, doc):
+    env = {}
+    toks = md.parse(doc, env)
+    refs = env.get("references") or {}
+    return (tuple((t.type, t.level, t.content) for t in toks),
+            tuple(sorted((k, v.get("href"), v.get("title")) for k, v in refs.items())))
+
+
+def t_invariant(md):
+    ruler = md.block.ruler
+    have = {x.name for x in ruler.__rules__}
+    if "paragraph" not in have:
+        return None
+
+    def mk(sentinel):
+        def probe(state, startLine, endLine, silent):
+            if not silent:
+                return False
+            return sentinel in state.src[state.bMarks[startLine]:state.eMarks[startLine]]
+        return probe
+
+    for c in T_CHAINS:
+        ruler.before("paragraph", "tprobe_" + c, mk(f"@{c[0]}@"), {"alt": [c]})
+    act = set(ruler.get_active_rules())
+    if "block" not in md.core.ruler.get_active_rules():
+        return None
+    try:
+        for ctx in T_CHAINS:
+            if ctx not in act:
+                continue
+            base = _t_outcome(md, T_DOCS[ctx].replace("{S}", "@n@"))
+            for c in T_CHAINS:
+                s = f"@{c[0]}@"
+                got = _t_outcome(md, T_DOCS[ctx].replace("{S}", s))
+                same = repr(got).replace(s, "@n@") == repr(base)
+                if c == ctx and same and ("tprobe_" + c) in act:
+                    return f"block chain {c!r}: an active member rule of this chain has no effect on the look-ahead of the {ctx} rule"
+                if c != ctx and not same:
+                    return f"block chain {c!r}: a rule that is only a member of {c!r} changed the look-ahead of the {ctx} rule"
+    except Exception as e:
+        return f"terminator probe parse raised {type(e).__name__}"
     return None
 
 
